@@ -226,6 +226,7 @@ func (s *fileStore) Open(ctx context.Context, task TaskName, partition int, offs
 		if err == nil {
 			return nil, errors.E(errors.Invalid, fmt.Sprintf("Seeked to %d, got %d", offset, n))
 		}
+		return nil, err
 	}
 	return &fileIOCloser{
 		Reader: io.LimitReader(r, info.Size()-8-offset),
